@@ -115,7 +115,7 @@ package base
 //@   let pick = seqof(i, 0 <= i && i < la.array.length && now > 0 && live(la, now, la.array.data[i]) && predicate(la.array.data[i].BucketStart))
 //@   ensures[time-zero] now == 0 ==> len(r) == 0
 //@   ensures[length] now > 0 ==> len(r) == countTrue(pick, la.array.length)
-//@   ensures[placed] forall i Int :: 0 <= i && i < la.array.length && sel(pick, i) ==> r[countTrue(pick, i)] == la.array.data[i] && countTrue(pick, i) < len(r)
+//@   ensures[placed] forall i Int :: 0 <= i && i < la.array.length && sel(pick, i) ==> r[countTrue(pick, i)] == la.array.data[i] && 0 <= countTrue(pick, i) && countTrue(pick, i) < len(r)
 //@   ensures[fresh] len(r) == 0 || fresh(base(r))
 //@   ensures[bounded-length] len(r) <= la.array.length
 //@   ensures[from-data] forall j Int :: 0 <= j && j < len(r) ==> (exists i Int :: 0 <= i && i < la.array.length && sel(pick, i) && r[j] == la.array.data[i])
@@ -134,7 +134,7 @@ package base
 //@   let pick = seqof(i, 0 <= i && i < la.array.length && now > 0 && live(la, now, la.array.data[i]))
 //@   ensures[time-zero] now == 0 ==> len(r) == 0
 //@   ensures[length] now > 0 ==> len(r) == countTrue(pick, la.array.length)
-//@   ensures[placed] forall i Int :: 0 <= i && i < la.array.length && sel(pick, i) ==> r[countTrue(pick, i)] == la.array.data[i] && countTrue(pick, i) < len(r)
+//@   ensures[placed] forall i Int :: 0 <= i && i < la.array.length && sel(pick, i) ==> r[countTrue(pick, i)] == la.array.data[i] && 0 <= countTrue(pick, i) && countTrue(pick, i) < len(r)
 //@   ensures[fresh] len(r) == 0 || fresh(base(r))
 //@   ensures[bounded-length] len(r) <= la.array.length
 //@   ensures[from-data] forall j Int :: 0 <= j && j < len(r) ==> (exists i Int :: 0 <= i && i < la.array.length && sel(pick, i) && r[j] == la.array.data[i])
@@ -156,15 +156,16 @@ package base
 //@   let pick = seqof(i, 0 <= i && i < la.array.length && now > 0 && live(la, now, la.array.data[i]) && inWindow(m, now, la.array.data[i].BucketStart))
 //@   ensures[time-zero] now == 0 ==> len(r) == 0
 //@   ensures[length] now > 0 ==> len(r) == countTrue(pick, la.array.length)
-//@   ensures[placed] forall i Int :: 0 <= i && i < la.array.length && sel(pick, i) ==> r[countTrue(pick, i)] == la.array.data[i] && countTrue(pick, i) < len(r)
+//@   ensures[placed] forall i Int :: 0 <= i && i < la.array.length && sel(pick, i) ==> r[countTrue(pick, i)] == la.array.data[i] && 0 <= countTrue(pick, i) && countTrue(pick, i) < len(r)
 //@   ensures[bounded-length] len(r) <= la.array.length
 //@   ensures[from-data] forall j Int :: 0 <= j && j < len(r) ==> (exists i Int :: 0 <= i && i < la.array.length && sel(pick, i) && r[j] == la.array.data[i])
+//@   ensures[pick-def] forall i Int :: 0 <= i && i < la.array.length ==> (sel(pick, i) <==> (now > 0 && live(la, now, la.array.data[i]) && inWindow(m, now, la.array.data[i].BucketStart)))
 //@   modifies nothing
 
 // ---- P4 aggregation
 //@ spec rec seqsum(a (Array Int Int), k Int) Int = k <= 0 ? 0 : seqsum(a, k - 1) + sel(a, k - 1)
 //@ spec func bucketOf(ww) = cast(dynptr(stored(ww.Value)), MetricBucket)
-//@ spec func isBucket(ww) = ww != nil && typeis(stored(ww.Value), "*core/stat/base.MetricBucket") && bucketOf(ww) != nil
+//@ spec func isBucket(ww) = ww != nil && typeis(stored(ww.Value), "*core/stat/base.MetricBucket") && bucketOf(ww) != nil && allocated(bucketOf(ww))
 //@ spec func bounded(v) = 0 - 1099511627776 <= v && v <= 1099511627776
 
 //@ func (m *SlidingWindowMetric) count(event, values) r
@@ -196,3 +197,107 @@ package base
 //@   ensures[time-zero] now == 0 ==> r == 0
 //@   ensures[window-sum] now > 0 ==> r == isum(pick, slotVals, la.array.length)
 //@   modifies nothing
+
+//@ spec func viewOK(m) = m != nil && m.real != nil && arrayOK(m.real.data) && m.real.data.bucketLengthInMs > 0 && m.real.data.array.length <= 65536 && m.intervalInMs > 0
+
+//@ func (m *SlidingWindowMetric) getQPSWithTime(now, event) r
+//@   props C08
+//@   requires viewOK(m) && now < 4611686018427387904 && validEvent(event) && bucketsOK(m.real.data, event)
+//@   let la = m.real.data
+//@   let pick = seqof(i, 0 <= i && i < la.array.length && now > 0 && live(la, now, la.array.data[i]) && inWindow(m, now, la.array.data[i].BucketStart))
+//@   let slotVals = seqof(i, bucketOf(la.array.data[i]).counter[event])
+//@   ensures[per-second] now > 0 ==> r == R(isum(pick, slotVals, la.array.length)) / (R(m.intervalInMs) / 1000.0)
+//@   modifies nothing
+
+// the previous-window rate is the rate of the window ending one view bucket earlier
+//@ func (m *SlidingWindowMetric) GetPreviousQPS(event) r
+//@   props C08
+//@   requires viewOK(m) && validEvent(event) && bucketsOK(m.real.data, event) && clock_ms >= m.bucketLengthInMs
+//@   ensures[one-bucket-earlier] clock_ms - m.bucketLengthInMs > 0 ==> r == R(isum(seqof(i, 0 <= i && i < m.real.data.array.length && live(m.real.data, clock_ms - m.bucketLengthInMs, m.real.data.array.data[i]) && inWindow(m, clock_ms - m.bucketLengthInMs, m.real.data.array.data[i].BucketStart)), seqof(i, bucketOf(m.real.data.array.data[i]).counter[event]), m.real.data.array.length)) / (R(m.intervalInMs) / 1000.0)
+//@   modifies nothing
+
+// maximum of one event over the buckets of the window (0 if none)
+//@ func (m *SlidingWindowMetric) GetMaxOfSingleBucket(event) r
+//@   props C08
+//@   requires viewOK(m) && validEvent(event) && bucketsOK(m.real.data, event)
+//@   ensures[upper] forall i Int :: 0 <= i && i < m.real.data.array.length && clock_ms > 0 && live(m.real.data, clock_ms, m.real.data.array.data[i]) && inWindow(m, clock_ms, m.real.data.array.data[i].BucketStart) ==> bucketOf(m.real.data.array.data[i]).counter[event] <= r
+//@   ensures[attained] r == 0 || (exists i Int :: 0 <= i && i < m.real.data.array.length && live(m.real.data, clock_ms, m.real.data.array.data[i]) && inWindow(m, clock_ms, m.real.data.array.data[i].BucketStart) && bucketOf(m.real.data.array.data[i]).counter[event] == r)
+//@   modifies nothing
+//@   loop 1:
+//@     invariant[upper] forall j Int :: 0 <= j && j < #i ==> bucketOf(satisfiedBuckets[j]).counter[event] <= curMax
+//@     invariant[attained] curMax == 0 || (exists j Int :: 0 <= j && j < #i && bucketOf(satisfiedBuckets[j]).counter[event] == curMax)
+
+// ---- P2 placement (one thread): mapping a time to its slot and refreshing stale slots
+//@ func (aa *AtomicBucketWrapArray) compareAndSet(idx, except, update) ok
+//@   assumed
+//@   requires aa != nil
+//@   ensures ok <==> (0 <= idx && idx < aa.length && old(aa.data[idx]) == except)
+//@   ensures forall j Int :: aa.data[j] == ((ok && j == idx) ? update : old(aa.data[j]))
+//@   modifies elems(aa.data)
+
+// unsafe CAS on the embedded sync.Mutex word: may or may not acquire, no effect on contract-visible state
+//@ func (tl *mutex) TryLock() r
+//@   assumed
+//@   modifies nothing
+
+//@ iface BucketGenerator.NewEmptyBucket() r
+//@   ensures typeis(r, "*core/stat/base.MetricBucket") && dynptr(r) != 0 && fresh(dynptr(r))
+//@   ensures forall e Int :: validEvent(e) ==> cast(dynptr(r), MetricBucket).counter[e] == 0
+//@   modifies nothing
+
+//@ iface BucketGenerator.ResetBucketTo(bucket, startTime) r
+//@   requires isBucket(bucket)
+//@   ensures r == bucket && bucket.BucketStart == startTime && isBucket(bucket) && stored(bucket.Value) == old(stored(bucket.Value))
+//@   ensures forall e Int :: validEvent(e) ==> bucketOf(bucket).counter[e] == 0
+//@   modifies bucket.BucketStart, fields(bucketOf(bucket))
+
+//@ func (bla *BucketLeapArray) ResetBucketTo(bw, startTime) r
+//@   props C08, C09
+//@   requires isBucket(bw)
+//@   ensures[start] r == bw && bw.BucketStart == startTime && stored(bw.Value) == old(stored(bw.Value))
+//@   ensures[zeroed] forall e Int :: validEvent(e) ==> bucketOf(bw).counter[e] == 0
+//@   ensures[defaults] bucketOf(bw).minRt == base.DefaultStatisticMaxRt && bucketOf(bw).maxConcurrency == 0
+//@   modifies bw.BucketStart, fields(bucketOf(bw))
+
+//@ spec func geomOK(la) = arrayOK(la) && la.bucketLengthInMs > 0 && la.array.length > 0 && la.sampleCount > 0
+//@ spec func slotBucketsOK(la) = (forall i Int :: 0 <= i && i < la.array.length ==> allocated(la.array.data[i])) && (forall i Int :: 0 <= i && i < la.array.length && la.array.data[i] != nil ==> isBucket(la.array.data[i])) && (forall i Int :: forall j Int :: 0 <= i && i < j && j < la.array.length && la.array.data[i] != nil ==> la.array.data[i] != la.array.data[j])
+
+//@ func (la *LeapArray) currentBucketOfTime(now, bg) (w, err)
+//@   props C08, C09
+//@   requires geomOK(la) && slotBucketsOK(la) && now < 4611686018427387904
+//@   let idx = slotOf(now, la.bucketLengthInMs, la.array.length)
+//@   let start = startOf(now, la.bucketLengthInMs)
+//@   let cur = la.array.data[idx]
+//@   ensures[time-zero] now == 0 ==> w == nil && err != nil && frame()
+//@   ensures[slot] now > 0 && err == nil ==> w != nil && w == la.array.data[idx] && (w.BucketStart == start || (la.sampleCount == 1 && w.BucketStart > start))
+//@   ensures[is-bucket] now > 0 && err == nil ==> isBucket(w) && (cur != nil ==> stored(w.Value) == old(stored(cur.Value)))
+//@   ensures[kept] now > 0 && err == nil && cur != nil && old(cur.BucketStart) >= start ==> w == cur && frame()
+//@   ensures[refreshed] now > 0 && err == nil && cur != nil && old(cur.BucketStart) < start ==> w == cur && w.BucketStart == start && (forall e Int :: validEvent(e) ==> bucketOf(w).counter[e] == 0)
+//@   ensures[behind] now > 0 && err != nil ==> w == nil && cur != nil && old(cur.BucketStart) > start && la.sampleCount != 1 && frame()
+//@   ensures[other-slots] forall i Int :: 0 <= i && i < la.array.length && i != idx ==> la.array.data[i] == old(la.array.data[i])
+//@   ensures[other-starts] forall i Int :: 0 <= i && i < la.array.length && i != idx && la.array.data[i] != nil ==> la.array.data[i].BucketStart == old(la.array.data[i].BucketStart)
+//@   ensures[other-values] forall i Int :: 0 <= i && i < la.array.length && i != idx && la.array.data[i] != nil ==> stored(la.array.data[i].Value) == old(stored(la.array.data[i].Value))
+//@   modifies elems(la.array.data), cur.BucketStart, fields(bucketOf(cur))
+//@   loop 1:
+//@     invariant[untouched] frame()
+
+// two times that share a slot but not a bucket are at least one whole array interval apart:
+// a refresh only ever destroys data that is older than the array can retain
+//@ lemma slot-reuse-distance {C08}: forall t1 Int :: forall t2 Int :: forall L Int :: forall n Int :: 0 <= t1 && 0 <= t2 && L > 0 && n > 0 && slotOf(t1, L, n) == slotOf(t2, L, n) && startOf(t1, L) < startOf(t2, L) ==> startOf(t2, L) - startOf(t1, L) >= n * L
+
+//@ spec func bucketsDistinct(la) = forall i Int :: forall j Int :: 0 <= i && i < j && j < la.array.length && la.array.data[i] != nil && la.array.data[j] != nil ==> bucketOf(la.array.data[i]) != bucketOf(la.array.data[j])
+
+// recording at time now (not behind the slot's current bucket) credits exactly `count` to exactly the bucket that
+// starts at startOf(now), refreshing the slot first if it still holds an older bucket; nothing else changes
+//@ func (bla *BucketLeapArray) addCountWithTime(now, event, count)
+//@   props C08, C09
+//@   requires bla != nil && geomOK(bla.data) && slotBucketsOK(bla.data) && bucketsDistinct(bla.data) && 0 < now && now < 4611686018427387904 && validEvent(event) && small(count)
+//@   let la = bla.data
+//@   let idx = slotOf(now, la.bucketLengthInMs, la.array.length)
+//@   let start = startOf(now, la.bucketLengthInMs)
+//@   let cur = la.array.data[idx]
+//@   requires cur != nil && cur.BucketStart <= start && (cur.BucketStart == start ==> small(bucketOf(cur).counter[event]))
+//@   ensures[placed] la.array.data[idx] == cur && cur.BucketStart == start
+//@   ensures[credited] bucketOf(cur).counter[event] == (old(cur.BucketStart) == start ? old(bucketOf(cur).counter[event]) : 0) + count
+//@   ensures[same-bucket-others] forall e Int :: validEvent(e) && e != event ==> bucketOf(cur).counter[e] == (old(cur.BucketStart) == start ? old(bucketOf(cur).counter[e]) : 0)
+//@   ensures[other-slots] forall i Int :: 0 <= i && i < la.array.length && i != idx && la.array.data[i] != nil ==> la.array.data[i] == old(la.array.data[i]) && la.array.data[i].BucketStart == old(la.array.data[i].BucketStart) && (forall e Int :: validEvent(e) ==> bucketOf(la.array.data[i]).counter[e] == old(bucketOf(la.array.data[i]).counter[e]))
